@@ -757,7 +757,7 @@ def c14(proj, rep, tier):
     rep.floor('GR2 literal Klein table + quaternion seed', n, 3)
     n = groups.gr3(proj, rep)
     rep.floor('GR3 residue-arithmetic tables', n, 2)
-    round3b.mr3(proj, rep, ['numqi.group'] if tier == 'quick' else None)
+    round3b.mr3(proj, rep, ['numqi.group'])
     n = groups.gr4(proj, rep)
     rep.floor('GR4 permutation-composition tables', n, 3)
     n = groups.gr5(proj, rep)
